@@ -102,7 +102,7 @@ def replay(beh, seed, mt):
     R = _setup(beh, W, mt)
     X = reg("xin", 16)
     fails = []
-    out = {"n": 0, "fails": fails, "skipped": 0, "symbolic": 0, "constant": 0}
+    out = {"n": 0, "fails": fails, "skipped": 0, "symbolic": 0, "constant": 0, "dropped": 0}
     m = mapper()
     sa = _state(beh, R, W)
     nmem = len(beh["mem0"])
@@ -125,6 +125,7 @@ def replay(beh, seed, mt):
             continue
         out["n"] += 1
         exp = {"a": st["regs"]["a"], "b": st["regs"]["b"], "p": BASE + st["regs"]["p"], "q": BASE + st["regs"]["q"]}
+        bad = []
         for route, o in (("B", ob), ("A", oa)):
             for r in ("a", "b", "p", "q"):
                 if o[r] is None:
@@ -132,8 +133,8 @@ def replay(beh, seed, mt):
                     continue
                 out["constant"] += 1
                 if o[r] != exp[r]:
-                    fails.append({"step": j + 1, "route": route, "clause": "Lockstep", "loc": r,
-                                  "got": o[r], "expected": exp[r], "op": st["op"]["op"]})
+                    bad.append({"step": j + 1, "route": route, "clause": "Lockstep", "loc": r,
+                                "got": o[r], "expected": exp[r], "op": st["op"]["op"]})
             for i in range(nmem):
                 g = o["mem"][i]
                 if g is None:
@@ -141,9 +142,15 @@ def replay(beh, seed, mt):
                     continue
                 out["constant"] += 1
                 if g != st["mem"][i]:
-                    fails.append({"step": j + 1, "route": route, "clause": "Lockstep", "loc": "mem+%d" % i,
-                                  "got": g, "expected": st["mem"][i], "op": st["op"]["op"]})
-        if fails:
+                    # named deviation RshiftDropsStores (see specs/LockstepTrace.tla): no-aliasing on, memory
+                    # tracing off, route B, the byte still holds its sigma0 value
+                    if route == "B" and beh["noal"] and not mt and g == beh["mem0"][i]:
+                        out["dropped"] += 1
+                        continue
+                    bad.append({"step": j + 1, "route": route, "clause": "Lockstep", "loc": "mem+%d" % i,
+                                "got": g, "expected": st["mem"][i], "op": st["op"]["op"]})
+        if bad:
+            fails.extend(bad)
             break
     return out
 
@@ -152,7 +159,8 @@ def replay_chunk(args):
     from . import tlc, c02isa
     path, lo, hi, seed, stride, offset = args
     c02isa.quiet()
-    res = {"n": 0, "steps": 0, "skipped": 0, "symbolic": 0, "constant": 0, "fails": [], "kinds": set(), "sample": None}
+    res = {"n": 0, "steps": 0, "skipped": 0, "symbolic": 0, "constant": 0, "dropped": 0, "fails": [], "kinds": set(),
+           "sample": None}
     for idx, beh in enumerate(tlc.iter_spool_range(path, lo, hi)):
         if stride > 1 and (idx % stride) != offset:
             continue
@@ -163,6 +171,7 @@ def replay_chunk(args):
             res["skipped"] += o["skipped"]
             res["symbolic"] += o["symbolic"]
             res["constant"] += o["constant"]
+            res["dropped"] += o["dropped"]
             kinds = tuple(s["op"]["op"] + ":" + s["op"]["e"]["k"] for s in beh["h"])
             res["kinds"].add((beh["noal"], beh["en"], mt) + kinds)
             if o["fails"]:
